@@ -187,6 +187,15 @@ func (w *World) Violate(prop, oracle, sig, format string, a ...any) {
 		}
 	}
 	w.res.Violations = append(w.res.Violations, Violation{prop, oracle, sig, d, w.Net.Now().Seconds()})
+	// written through at once: if the process dies later in the run (a crash of frp is a finding of its own), what
+	// the oracles had already established must not be lost with it
+	if w.In.Out != "" {
+		snap := *w.res
+		snap.Verdict = "violation"
+		if b, err := json.Marshal(&snap); err == nil {
+			os.WriteFile(w.In.Out, b, 0o644)
+		}
+	}
 	if os.Getenv("VERIF_DUMP_ON_VIOLATION") != "" && len(w.res.Violations) == 1 {
 		buf := make([]byte, 16<<20)
 		os.Stderr.Write(buf[:runtime.Stack(buf, true)])
